@@ -151,6 +151,9 @@ Proof.
   rewrite !ln_mult by lra. lra.
 Qed.
 
+Lemma log_formulas : ln 2 = 4 * atanhR (/ 6) + 2 * atanhR (/ 99) /\ ln 10 = 3 * ln 2 + 2 * atanhR (/ 9).
+Proof. split; [exact ln2_atanh | exact ln10_atanh]. Qed.
+
 (* ---------------------------------------------------------------- the rounded loop *)
 Section Trace.
 Variable u : R.
